@@ -14,11 +14,18 @@ _Bool nondet_vp_bool (void);
 #define vp_nondet_i64() nondet_vp_i64 ()
 #define vp_nondet_u64() nondet_vp_u64 ()
 #define vp_nondet_bool() ((int) nondet_vp_bool ())
+/* reachability canary: MUST FAIL (see vp/runner.py) */
+#ifdef VP_NO_CANARY
+#define VP_CANARY() ((void) 0)
+#else
+#define VP_CANARY() __CPROVER_assert (0, "VP-CANARY: harness end reachable")
+#endif
 #else
 uint32_t vp_nondet_u32 (void);
 int32_t vp_nondet_i32 (void);
 int64_t vp_nondet_i64 (void);
 uint64_t vp_nondet_u64 (void);
 int vp_nondet_bool (void);
+#define VP_CANARY() ((void) 0)
 #endif
 #endif
